@@ -507,6 +507,41 @@ def rule_r7(repo, run):
               "after wrapping nested namespaces (which rename the top splicer level) the namespace's own name must be "
               "restored before its module is written; otherwise file_top/module_use/module_top of the outer module are "
               "looked up under the inner namespace's name and the user's code is lost", wf.loc(wn))
+    # a user line that cannot be broken is written as it is: write_continue only starts a continuation line when
+    # something has already been written on the current one
+    um = repo.module("util")
+    wc = repo.module("wrapc")
+    wcn = um.func("WrapperMixin.write_continue")
+    dumps = [a for a in ast.walk(wcn) if isinstance(a, ast.Assign) and pyflow.is_name(a.targets[0], "dump")
+             and isinstance(a.value, ast.Constant) and a.value.value is True]
+    long_arm = [a for a in dumps if any("linelen" in um.seg(t) for t, pol in pyflow.dominating_tests(a, stop=wcn) if pol)]
+    okd = len(long_arm) == 1 and any("nparts > 0" == str(um.seg(t)) and pol for t, pol in pyflow.dominating_tests(long_arm[0], stop=wcn))
+    run.check(R, "util.WrapperMixin.write_continue:no-empty-continuation", okd,
+              "a line is broken because it is too long even when nothing has been put on it yet (no `nparts > 0` test): an "
+              "unbreakable user splicer line gets a bare continuation line in front of it, one more on every round trip",
+              um.loc(wcn))
+    # the declaration's own splicer is the *forced* text (it wins over same-named blocks from files / splicer_code)
+    wfi = wf.func("Wrapf.wrap_function_impl")
+    reads = [a for a in ast.walk(wfi) if isinstance(a, ast.Assign) and "node.splicer['f']" in wf.seg(a.value)]
+    run.check(R, "wrapf.Wrapf.wrap_function_impl:declaration-splicer-is-forced",
+              len(reads) == 1 and pyflow.is_name(reads[0].targets[0], "F_force"),
+              "the Fortran splicer written on the declaration must be passed to _create_splicer as the forced text (F_force); "
+              "stored as the default body it is overridden by a same-named block of a splicer file", wf.loc(wfi))
+    wcf = wc.func("Wrapc.wrap_function")
+    reads = [a for a in ast.walk(wcf) if isinstance(a, ast.Assign) and "node.splicer[splicer_name]" in wc.seg(a.value)]
+    run.check(R, "wrapc.Wrapc.wrap_function:declaration-splicer-is-forced",
+              len(reads) == 1 and pyflow.is_name(reads[0].targets[0], "C_force"),
+              "the C splicer written on the declaration must be the forced text (C_force)", wc.loc(wcf))
+    # a file that holds nothing but user splicer text is still written
+    for mod, q in ((wc, "Wrapc.write_impl"), (wc, "Wrapc.write_header")):
+        fn = mod.func(q)
+        for c in ast.walk(fn):
+            if isinstance(c, ast.Call) and (pyflow.call_name(c) or "") == "self._create_splicer":
+                par = c._parent
+                used = isinstance(par, ast.If) and par.test is c and pat.has(par.body, "write_file = True")
+                run.check(R, "%s.%s:_create_splicer(%s)->write_file" % (mod.name, q, pyflow.const_str(c.args[0])), used,
+                          "_create_splicer reports whether the user supplied text for this block; the result must switch "
+                          "write_file on, otherwise a file whose only content is the user's block is not written", mod.loc(c))
     # a declaration-level splicer forces the wrapper that contains it
     wc = repo.module("wrapc")
     for mod, q in ((wc, "Wrapc.wrap_function"), (wf, "Wrapf.wrap_function_impl")):
